@@ -281,7 +281,8 @@ def walk_here_statement(buff, pos):
                 i -= 1
             if i >= 0 and buff[i] == "\n":
                 break
-        end_here = buff.find(here_word, end_here + here_len)
+        # always move on, an empty here word (<<'') matches everywhere
+        end_here = buff.find(here_word, end_here + max(here_len, 1))
 
     if end_here == -1:
         return end
